@@ -20,8 +20,11 @@ import (
 
 	v3 "github.com/projectcalico/api/pkg/apis/projectcalico/v3"
 	"github.com/go-logr/logr"
+	metav1 "k8s.io/apimachinery/pkg/apis/meta/v1"
 	uruntime "k8s.io/apimachinery/pkg/util/runtime"
 	"k8s.io/klog/v2"
+
+	"github.com/projectcalico/calico/kube-controllers/pkg/controllers/ippool"
 
 	"verifsim/core"
 )
@@ -80,7 +83,7 @@ func run(r *core.R) {
 		"protected_pool_checked_at_quiescence", "mask_obligation_started", "mask_obligation_ended_by_disable", "mask_obligation_held_at_quiescence",
 		"masked_pool_enabled_after_terminating_gone", "transient_double_allocatable", "terminating_blocked_by_blocks", "block_created", "block_removed",
 		"restart_with_terminating_pool", "final_maximal", "final_nonmaximal", "final_overlap_pairs_checked", "quiesce_rounds_over_3",
-		"work_dropped_after_max_retries_recovered_by_resync", "stale_pass_enabled_pool_over_terminating", "stale_pass_wrote_condition", "stale_pass_enabled_over_allocatable", "stale_pass_disabled_allocatable")
+		"work_dropped_after_max_retries_recovered_by_resync", "stale_pass_enabled_pool_over_terminating", "preexisting_allocatable_pool", "preexisting_contested_pair", "failed_write_would_have_disabled_allocatable_pool", "failed_write_would_have_disabled_allocatable_pool_with_blocks", "stale_pass_wrote_condition", "stale_pass_enabled_over_allocatable", "stale_pass_disabled_allocatable")
 	klog.SetLogger(logr.Discard())
 	uruntime.ReallyCrash = false
 	uruntime.PanicHandlers = append(uruntime.PanicHandlers, func(_ context.Context, p interface{}) {
@@ -160,7 +163,7 @@ func (h *harness) configure() {
 	h.lagMode = r.Src.Weighted([]int{2, 3, 3, 5}, "lag_mode")
 	r.Cfg("lag_mode", []string{"none", "mild", "heavy", "own-writes-trickle"}[h.lagMode])
 	h.pInter = []int{0, 80, 250, 500}[r.Src.Weighted([]int{2, 3, 3, 2}, "interleave_level")]
-	lvl := r.Src.Weighted([]int{3, 4, 3}, "fault_level")
+	lvl := r.Src.Weighted([]int{2, 4, 4}, "fault_level")
 	r.Cfg("fault_level", lvl)
 	if lvl > 0 {
 		hi := []int{0, 60, 200}[lvl]
@@ -203,8 +206,41 @@ func (h *harness) main() {
 	h.faultsOn, h.interleave = true, true
 	h.mu.Lock()
 	// Some runs start from an API server that already holds pools the controller has never seen.
-	for i, n := 0, r.Src.Intn(3, "preexisting_pools"); i < n; i++ {
+	for i, n := 0, r.Src.Intn(4, "preexisting_pools"); i < n; i++ {
 		h.actCreatePool()
+	}
+	// ... and whatever conditions and finalizers an earlier controller (an older version, an incarnation that died
+	// half-way, one that lost a race) left on them: a reconciler has to cope with any stored state, including two
+	// overlapping pools that are both marked allocatable.
+	for _, p := range h.api.sortedPools() {
+		st := r.Src.Weighted([]int{4, 5, 1}, "preexisting_state")
+		if st == 0 {
+			continue
+		}
+		c := metav1.Condition{Type: v3.IPPoolConditionAllocatable, Status: metav1.ConditionTrue, Reason: v3.IPPoolReasonOK,
+			Message: "IPPool is available for IP allocation.", LastTransitionTime: metav1.NewTime(h.api.clock)}
+		if st == 2 {
+			c.Status, c.Reason, c.Message = metav1.ConditionFalse, v3.IPPoolReasonCIDROverlap, "CIDR overlaps another pool; disabled to prevent IP allocation conflicts."
+		} else {
+			p.Finalizers = append(p.Finalizers, ippool.IPPoolFinalizer)
+		}
+		p.Status = &v3.IPPoolStatus{Conditions: []metav1.Condition{c}}
+		h.api.adminUpdate(p)
+		r.Op("left behind by an earlier controller: %s", poolLine(p))
+		if st == 1 && !p.Spec.Disabled {
+			r.Probe("preexisting_allocatable_pool")
+			if r.Src.Chance(850, "preexisting_block") {
+				h.claimBlock(p)
+			}
+		}
+	}
+	ps0 := h.api.sortedPools()
+	for i, a := range ps0 {
+		for _, b := range ps0[i+1:] {
+			if isTrue(a) && isTrue(b) && h.meta[string(a.UID)].pfx.Overlaps(h.meta[string(b.UID)].pfx) {
+				r.Probe("preexisting_contested_pair")
+			}
+		}
 	}
 	h.startController()
 	h.settle()
